@@ -125,6 +125,47 @@ def _gen_core(rng, tier):
                                           rng.choice([1, 2, 3, 0, -1, 9223372036854775807, 4611686018427387904]))
                         for _ in range(rng.randint(0, 4))]
             yield Case("split", [rs, ";".join(rngs) if rngs else "_"], True, "split")
+    # irregular multi-range partitions covering every site once: each site drawn into one of 2-3 blocks, the blocks
+    # written as maximal runs (and, for regular stretches, as start-end\\step ranges); and "almost arithmetic" blocks
+    # whose first gap, end points and count fit a progression that the inner sites leave
+    for _ in range(30 if tier == "quick" else 300):
+        n, L = rng.randint(1, 4), rng.randint(6, 24)
+        rows = [("s%d" % i, "".join(rng.choice(NT) for _ in range(L))) for i in range(n)]
+        k = rng.choice([2, 3])
+        if rng.random() < 0.5 and L >= 10:
+            g = rng.choice([2, 3])
+            cnt = rng.randint(4, (L - 1) // g + 1) if (L - 1) // g + 1 >= 4 else 4
+            first = rng.randint(0, max(0, L - 1 - g * (cnt - 1)))
+            prog = [first + g * i for i in range(cnt)]
+            if prog[-1] <= L - 1 and cnt >= 4:
+                j = rng.randint(2, cnt - 2)
+                inner = prog[j] + rng.choice([-1, 1])
+                if inner not in prog and 0 <= inner < L:
+                    prog[j] = inner
+            owner = {x: 0 for x in prog}
+            for x in range(L):
+                owner.setdefault(x, rng.randint(1, k - 1))
+        else:
+            owner = {x: rng.randrange(k) for x in range(L)}
+        rngs = []
+        for b in range(k):
+            sites = sorted(x for x in owner if owner[x] == b)
+            i = 0
+            while i < len(sites):
+                # longest arithmetic run starting at i (step 1..3), at least 3 sites for a step > 1
+                best = (1, 1)
+                for step in (1, 2, 3):
+                    m = 1
+                    while i + m < len(sites) and sites[i + m] == sites[i] + step * m:
+                        m += 1
+                    if (step == 1 and m > best[0]) or (step > 1 and m >= 3 and m > best[0]):
+                        best = (m, step)
+                m, step = best
+                rngs.append("p%d:%d:%d:%d" % (b, sites[i], sites[i + m - 1], step))
+                i += m
+        if rng.random() < 0.5:
+            rng.shuffle(rngs)
+        yield Case("split", [rows_str(rows), ";".join(rngs)], True, "split-irregular")
     for c in gen_cli(rng, tier):
         yield c
     for c in gen_cli_multi(rng, tier):
